@@ -61,6 +61,8 @@ def make_doc(fmt: str, ids) -> bytes:
 def _name_for(nc, j, ext, root, rng, canaries):
     """-> (member name, canary token or None).  Creates nothing; `canaries` collects (path, word)."""
     stem = f"m{j}{rng.choice('abcdefgh')}"
+    if rng.random() < 0.25:     # an archive extension INSIDE the name (backup.zip.txt, release-1.2.tar.md): only the
+        stem += rng.choice([".zip", ".tar", ".7z", ".tar.gz", ".tgz-old", ".ZIP", ".txz", "-1.2.tar", ".tar.bz2"])   # last one counts
     base = f"{stem}.{ext}"
     word = f"{CANARY}{j}{rng.randrange(1000, 9999)}x"
 
@@ -106,6 +108,8 @@ def _name_for(nc, j, ext, root, rng, canaries):
             host(os.path.join(root, "tmp", f"bs{j}_{base}"))
             return f"d{j}/x\\..\\..\\..\\bs{j}_{base}"
         return [f"d{j}\\{base}", f"..\\{base}", f"\\{base}", f"\\\\srv\\share\\{base}"][v]
+    if nc == "dslash":          # absolute, written with two leading slashes
+        return rng.choice([f"//srv{j}/export/{base}", f"//{base}"])
     if nc == "drive":
         return rng.choice([f"C:\\{base}", f"C:/{base}", f"c:{base}"])
     if nc == "empty":
